@@ -66,10 +66,10 @@ theorem scanParts_congr {c1 c2 : Cfg} (hp : c1.pfx = c2.pfx) (hs : c1.splits = c
       simp only [hm]
 
 theorem doList_congr {c1 c2 : Cfg} {s : BState} {a b : Bytes} {R n : Nat}
-    (h1 : cmp a b = .lt → ∀ rev lim, scanLimited c1 s.store (encode a 0) (encode b 0) rev lim =
-      scanLimited c2 s.store (encode a 0) (encode b 0) rev lim)
-    (h2 : cmp a b = .lt → ∀ rev, scanParts c1 s.store (encode a 0) (encode b 0) rev =
-      scanParts c2 s.store (encode a 0) (encode b 0) rev) :
+    (h1 : cmp a b = .lt → ∀ rev lim, scanLimited c1 s.store (encodeBound a) (encodeBound b) rev lim =
+      scanLimited c2 s.store (encodeBound a) (encodeBound b) rev lim)
+    (h2 : cmp a b = .lt → ∀ rev, scanParts c1 s.store (encodeBound a) (encodeBound b) rev =
+      scanParts c2 s.store (encodeBound a) (encodeBound b) rev) :
     doList c1 s a b R n = doList c2 s a b R n := by
   by_cases hab : cmp a b = .lt
   · simp only [doList, h1 hab, h2 hab]
@@ -88,7 +88,8 @@ theorem doList_indep_of_ascending {c1 c2 : Cfg} (hp : c1.pfx = c2.pfx) (hs : c1.
     (ht : c1.q.supportTTL = c2.q.supportTTL) (s : BState) {a b : Bytes} (ha : Alphabet a) (hb : Alphabet b)
     (hasc : ∀ parts, scanPartitions c1 (encode a 0) (encode b 0) = some parts → ∀ p ∈ parts, cmp p.1 p.2 ≠ .gt)
     (R n : Nat) : doList c1 s a b R n = doList c2 s a b R n := by
-  refine doList_congr (fun hab => ?_) (fun _ => ?_)
+  refine doList_congr (fun hab => ?_) (fun _ => ?_) <;>
+    rw [encodeBound_of_alphabet ha, encodeBound_of_alphabet hb]   -- bounds over the alphabet: the index keys, as before
   · have hne : a ≠ b := by intro e; rw [e] at hab; simp at hab
     have hlt : cmp (encode a 0) (encode b 0) = .lt := by
       rw [encode_cmp ha hb (by decide) (by decide)]; simp [hne, hab]
